@@ -207,6 +207,12 @@ pub fn check_sheared(sh: &mut Shard, a: &IG, b: &IG, l: i64, verbose: bool) {
 }
 
 pub fn gen_case(r: &mut Rng) -> (IG, IG, Lat) {
+    // one case in 250: operands of realistic size / with a node of high degree (gen::gen_large_pair)
+    if r.chance(1, 250) {
+        if let Some((a, b, _)) = gen_large_pair(r) {
+            return (a, b, Lat::random(r));
+        }
+    }
     let g = *r.pick(&[3i64, 3, 4, 4, 4, 5, 5, 6, 8, 12]);
     let a = gen_any(r, g);
     let b = partner(r, &a, g);
@@ -231,8 +237,11 @@ pub fn run(ctx: &Ctx, sh: &mut Shard) {
         ctx.mark_case(k);
         let mut r = Rng::derive(ctx.seed, ctx.shard, k);
         let (a, b, lat) = gen_case(&mut r);
-        if a.n_segments() + b.n_segments() > 90 {
+        if a.n_segments() + b.n_segments() > 700 {
             continue;
+        }
+        if a.n_segments() + b.n_segments() > 90 {
+            sh.class("size:more_than_90_segments");
         }
         check_pair(sh, &mut r, &a, &b, &lat, false);
         if k % 4 == 0 {
